@@ -43,6 +43,9 @@ CHECKS = {
     'C13': ('model_checking', 'the real Module.__pollThread body executed in the calling thread in virtual time: symbolic start time, symbolic durations and '
             'symbolic failure kinds of the first poll functions, run-time interval changes at a symbolic wake-up; oracle on the event log: main poll gap '
             '<= interval + one sweep, slow polls not starved, unpolled parameters never read, failures survived, new interval effective from the next wake-up', '5/C13'),
+    'C08': ('model_checking', 'SEQUENTIAL histories only: activate/deactivate (global, module, parameter and undescribed scopes), *IDN?, disconnect on two '
+            'connections interleaved in sequence with updates of symbolic values, chosen by symbolic selectors, against a scope-set model; the '
+            'activation-races-update half of the property (thread schedules) is not claimed', '5/C08'),
 }
 NOT_YET = 'check not built yet in this round (planned per DESIGN.md section 5); not claimed until its harness runs clean'
 NOT_APPLICABLE = {}
